@@ -210,6 +210,20 @@ func checkPair(a, b []RS, v *vt.V) bool {
 	if !sa.Union(ociauth.UnlimitedScope()).IsUnlimited() || !ociauth.UnlimitedScope().Union(sb).IsUnlimited() {
 		return fail("unlimited", "union with the unlimited scope is not unlimited")
 	}
+	// scopes are values: a union leaves its operands what they were, also when the receiver is
+	// itself the result of a union (whose internal slices may have room to spare)
+	u.Union(sb)
+	u.Union(sa)
+	sb.Union(u)
+	for _, x := range []struct {
+		name string
+		s    ociauth.Scope
+		want []RS
+	}{{"A", sa, ma.sorted()}, {"B", sb, mb.sorted()}, {"A.Union(B)", u, wl}} {
+		if got, _ := iterList(x.s); fmt.Sprint(got) != fmt.Sprint(x.want) {
+			return fail("operand-changed", "after further unions %s holds %v, it held %v", x.name, got, x.want)
+		}
+	}
 	return true
 }
 
@@ -313,7 +327,7 @@ func runPair(p PairScript, v *vt.V) {
 var propPairs = &vt.Prop[PairScript]{
 	ID:   "C09",
 	Name: "ScopePairsSmallUniverse",
-	Rule: "complete enumeration over the small universe {repository, registry, other} x {'', a, b, catalog} x {pull, push, *, delete, ''} (60 triples): all ordered pairs (A,B) of subsets of size <= 2 (thorough: |A| <= 2, |B| <= 3), sharded; oracle = naive set model: Contains both ways, Equal, Union (elements via Iter, Len, containment of both operands), union with unlimited; non-trivial = the two sets share a (type, resource) or mix known and unrecognised scopes; distinct = the pair",
+	Rule: "complete enumeration over the small universe {repository, registry, other} x {'', a, b, catalog} x {pull, push, *, delete, ''} (60 triples): all ordered pairs (A,B) of subsets of size <= 2 (thorough: |A| <= 2, |B| <= 3), sharded; oracle = naive set model: Contains both ways, Equal, Union (elements via Iter, Len, containment of both operands; operands and results unchanged by further unions), union with unlimited; non-trivial = the two sets share a (type, resource) or mix known and unrecognised scopes; distinct = the pair",
 	Run:  runPair,
 }
 
